@@ -62,11 +62,15 @@ def tv_defect_candidates(prop, spec, vectorized):
     """yield (finding ids, Ref options)"""
     open_ids = {k['id'] for k in load_known()}
     groups = _edge_groups(spec) if 'same-source-node-edges' in open_ids else []
-    masks = [()]
+    masks = [((), {})]
     if groups:
+        # per group: the surviving edge i delivers its own source, possibly with the weight of another edge j of the
+        # group (the code merges sources and weights of one source node independently)
         masks = []
-        for keep in itertools.islice(itertools.product(*groups), 32):
-            masks.append(tuple(i for g in groups for i in g if i not in keep))
+        per_group = [[(i, j) for i in g for j in g] for g in groups]
+        for choice in itertools.islice(itertools.product(*per_group), 64):
+            keep = {i for i, _ in choice}
+            masks.append((tuple(i for g in groups for i in g if i not in keep), {i: j for i, j in choice if i != j}))
     zd_opts = [()]
     und = _undriven_inputs(spec)
     if vectorized and und and 'undriven-default-dropped' in open_ids:
@@ -77,7 +81,7 @@ def tv_defect_candidates(prop, spec, vectorized):
                 zd_opts.append(tuple(sorted(x for x in und if (x[1], x[2]) in sub)))
                 if len(zd_opts) > 16:
                     break
-    for m in masks:
+    for m, wf in masks:
         for zd in zd_opts:
             ids = []
             if m:
@@ -85,7 +89,7 @@ def tv_defect_candidates(prop, spec, vectorized):
             if zd:
                 ids.append('undriven-default-dropped')
             if ids:
-                yield ids, dict(edge_mask=m, zero_default=zd)
+                yield ids, dict(edge_mask=m, zero_default=zd, weight_from=wf)
 
 
 _GEN_SUFFIX = re.compile(r'^(.+?)(_v\d+|_in\d+)$')
